@@ -46,18 +46,29 @@ func genLin(g *GenCtx) {
 		g.Op("end")
 	}
 	// fixed shapes first: the mechanisms named by the property
-	emit("obj=q cap=2", [][]string{{"s1", "s2", "c"}, {"sl:20", "r", "r", "r"}})                  // buffered data before EOF
-	emit("obj=q cap=1", [][]string{{"r"}, {"sl:5", "c"}})                                          // close releases a blocked Recv
-	emit("obj=q cap=1", [][]string{{"s1", "s2"}, {"sl:5", "c"}, {"sl:40", "r", "r"}})              // close while a Send is blocked on a full queue
-	emit("obj=q cap=0", [][]string{{"s1"}, {"sl:5", "c"}})                                         // same, unbuffered (no Recv: no rendezvous)
-	emit("obj=q cap=1", [][]string{{"r"}, {"sl:3", "ds"}, {"sl:60", "c"}})                         // deadline releases a blocked Recv
-	emit("obj=q cap=1", [][]string{{"r"}, {"dz"}, {"c"}})                                          // close racing with un-expire
-	emit("obj=q cap=1", [][]string{{"dp", "r", "dz", "r"}, {"sl:2", "x"}, {"sl:30", "c"}})         // cancel
-	emit("obj=q cap=1", [][]string{{"c"}, {"c"}, {"c"}, {"r"}, {"s1"}})                            // concurrent closes
-	emit("obj=q cap=3", [][]string{{"s1", "s2", "s3"}, {"r", "r"}, {"r"}, {"sl:50", "c"}})         // competing consumers
+	emit("obj=q cap=2", [][]string{{"s1", "s2", "c"}, {"sl:20", "r", "r", "r"}})           // buffered data before EOF
+	emit("obj=q cap=1", [][]string{{"r"}, {"sl:5", "c"}})                                  // close releases a blocked Recv
+	emit("obj=q cap=1", [][]string{{"s1", "s2"}, {"sl:5", "c"}, {"sl:40", "r", "r"}})      // close while a Send is blocked on a full queue
+	emit("obj=q cap=0", [][]string{{"s1"}, {"sl:5", "c"}})                                 // same, unbuffered (no Recv: no rendezvous)
+	emit("obj=q cap=1", [][]string{{"r"}, {"sl:3", "ds"}, {"sl:60", "c"}})                 // deadline releases a blocked Recv
+	emit("obj=q cap=1", [][]string{{"r"}, {"dz"}, {"c"}})                                  // close racing with un-expire
+	emit("obj=q cap=1", [][]string{{"dp", "r", "dz", "r"}, {"sl:2", "x"}, {"sl:30", "c"}}) // cancel
+	emit("obj=q cap=1", [][]string{{"c"}, {"c"}, {"c"}, {"r"}, {"s1"}})                    // concurrent closes
+	emit("obj=q cap=3", [][]string{{"s1", "s2", "s3"}, {"r", "r"}, {"r"}, {"sl:50", "c"}}) // competing consumers
 	// a near deadline that is extended just when it fires (the timer callback may already be running)
 	for _, d := range []int{2, 3, 3, 4} {
 		emit("obj=q cap=2", [][]string{{"ds", fmt.Sprintf("sl:%d", d), "df", "s1", "s2", "r"}, {"ds", fmt.Sprintf("sl:%d", d), "dz", "r"}, {fmt.Sprintf("sl:%d", d), "df", "r"}, {"sl:30", "c"}})
+	}
+	// … and the same with the race made certain: the second SetDeadline sleeps 8 ms under the lock, so
+	// the timer (due 3 ms after it was armed) fires meanwhile and its callback runs right after the new deadline is in place.
+	// Afterwards the deadline is cleared (or an hour away): a Recv on the empty queue must block until
+	// the closer ends it with end-of-stream, never report a timeout.
+	emit("obj=q cap=1 ylock=8", [][]string{{"ds", "dz", "r"}, {"sl:60", "c"}})
+	emit("obj=q cap=1 ylock=8", [][]string{{"ds", "df", "r"}, {"sl:60", "c"}})
+	emit("obj=q cap=2 ylock=8", [][]string{{"ds", "dz", "s1", "r", "r"}, {"sl:60", "c"}})
+	// (the directed shapes fill one batch, so that the long lock sleep slows nothing else down)
+	for k := 0; k < linBatch-3-13; k++ {
+		emit("obj=q cap=1", [][]string{{"r"}, {"sl:1", "c"}})
 	}
 	nq := 900
 	if g.Thorough() {
@@ -124,7 +135,18 @@ func genLin(g *GenCtx) {
 
 var yieldSeed, yieldCtr atomic.Uint64
 
+// lockSleepMs > 0: a SetDeadline call sleeps that long while it holds the deadline's lock, before
+// it stops the old timer — long enough for a nearly due timer to fire and its callback to queue
+// up behind the lock (directed shapes `ylock=<ms>`).
+var lockSleepMs atomic.Int64
+
 func yield(site string) {
+	if site == "Deadline.SetDeadline.locked" {
+		if ms := lockSleepMs.Load(); ms > 0 {
+			time.Sleep(time.Duration(ms) * time.Millisecond)
+			return
+		}
+	}
 	n := yieldCtr.Add(1)
 	z := (yieldSeed.Load() + n) * 0x9E3779B97F4A7C15
 	z = (z ^ (z >> 30)) * 0xBF58476D1CE4E5B9
@@ -214,7 +236,11 @@ func (lc *linCase) runQueue() {
 				case op == "df":
 					f = func() string { return errName(q.SetDeadline(time.Now().Add(time.Hour))) }
 				case op == "ds":
-					f = func() string { return errName(q.SetDeadline(time.Now().Add(3 * time.Millisecond))) }
+					// with ylock the call itself waits under the lock before it arms the timer
+					yl, _ := strconv.Atoi(lc.kv["ylock"])
+					f = func() string {
+						return errName(q.SetDeadline(time.Now().Add(time.Duration(3+yl) * time.Millisecond)))
+					}
 				case op == "x":
 					f = func() string { return errName(q.Cancel(errOther)) }
 				case op == "xt":
@@ -309,6 +335,12 @@ func runLin(in *bufio.Scanner, out *bufio.Writer) {
 	for i := 0; i < len(cases); i += linBatch {
 		j := min(i+linBatch, len(cases))
 		var wg sync.WaitGroup
+		lockSleepMs.Store(0)
+		for _, lc := range cases[i:j] {
+			if ms, err := strconv.ParseInt(lc.kv["ylock"], 10, 64); err == nil && ms > 0 {
+				lockSleepMs.Store(ms)
+			}
+		}
 		for _, lc := range cases[i:j] {
 			if lc.bad {
 				continue
